@@ -96,6 +96,19 @@ def seeded_variants(prop, rules):
     return out
 
 
+def refactor_variants(prop):
+    """The kept independent behaviour-preserving refactorings (negative controls): no rule of any property may report them."""
+    out = []
+    root = os.path.join(os.path.dirname(os.path.dirname(os.path.abspath(__file__))), 'refactors')
+    if not os.path.isdir(root):
+        return out
+    for rid in sorted(os.listdir(root)):
+        pp = os.path.join(root, rid, 'patch.diff')
+        if os.path.exists(pp):
+            out.append(dict(id='refactor:' + rid, props=[prop], file='*', kind='silent', where='', expect=[], patch=pp))
+    return out
+
+
 _EXTRA = {}
 
 
@@ -157,7 +170,7 @@ def run_for_property(prop, jobs=16):
     rules = PROPS[prop]['rules']
     # a must-fire variant is relevant to a property only if one of the rules expected to report it belongs to the property
     mine = [v for v in VARIANTS if prop in v['props'] and (v['kind'] == 'silent' or set(v['expect']) & set(rules))]
-    extra = seeded_variants(prop, rules)
+    extra = seeded_variants(prop, rules) + refactor_variants(prop)
     for v in extra:
         _EXTRA[v['id']] = v
     mine = mine + extra
